@@ -1,5 +1,293 @@
 package main
 
+// Structural facts about the code, emitted as Lean data into Gen/Facts.lean and compared
+// with expectations in Props/* by `decide`.
+//
+// To add a fact kind: collect plain Go values, turn them into Lean terms with the small
+// builders below (lstr / llist / ltuple), and register one `fact{name, type, doc, value}`
+// in genFacts. Everything is text; the Lean side only ever sees String / Nat / List / ×.
+
+import (
+	"fmt"
+	"go/ast"
+	"go/types"
+	"strings"
+)
+
+// ---- Lean term builders ----------------------------------------------------------------
+
+func lstr(s string) string { // Lean string literal
+	var b strings.Builder
+	b.WriteByte('"')
+	for _, r := range s {
+		switch r {
+		case '"':
+			b.WriteString("\\\"")
+		case '\\':
+			b.WriteString("\\\\")
+		case '\n':
+			b.WriteString("\\n")
+		case '\t':
+			b.WriteString("\\t")
+		default:
+			b.WriteRune(r)
+		}
+	}
+	b.WriteByte('"')
+	return b.String()
+}
+
+func lstrs(xs []string) string {
+	ys := make([]string, len(xs))
+	for i, x := range xs {
+		ys[i] = lstr(x)
+	}
+	return llist(ys, false)
+}
+
+func ltuple(xs ...string) string { return "(" + strings.Join(xs, ", ") + ")" }
+
+// llist renders already-built Lean terms; multi puts one element per line.
+func llist(xs []string, multi bool) string {
+	if len(xs) == 0 {
+		return "[]"
+	}
+	if !multi {
+		return "[" + strings.Join(xs, ", ") + "]"
+	}
+	return "[\n    " + strings.Join(xs, ",\n    ") + "\n  ]"
+}
+
+type fact struct{ name, ty, doc, value string }
+
+func (f fact) lean() string {
+	return fmt.Sprintf("/-- %s -/\ndef %s : %s :=\n  %s\n", f.doc, leanName(f.name), f.ty, f.value)
+}
+
+// pairsFact: `def name : List (String × String) := [...]`
+func pairsFact(name, doc string, ps [][2]string) fact {
+	var xs []string
+	for _, p := range ps {
+		xs = append(xs, ltuple(lstr(p[0]), lstr(p[1])))
+	}
+	return fact{name, "List (String × String)", doc, llist(xs, true)}
+}
+
+// ---- call-site collection ----------------------------------------------------------------
+
+// callSite: one call expression in non-test code with its syntactic context.
+type callSite struct {
+	fn     string   // enclosing declaration, "name" or "Recv.name"
+	recv   string   // text of the receiver expression for method calls ("" for plain functions)
+	args   []string // argument expression texts
+	guards []string // conditions of the enclosing if / case arms, outermost first; "!(c)" for an else arm
+	pos    string
+}
+
+func exprText(e ast.Expr) string { return types.ExprString(e) }
+
+// guardsOf derives the guard list from the ancestor stack (outermost first) of a node.
+func guardsOf(stack []ast.Node) []string {
+	var gs []string
+	for i, n := range stack {
+		var child ast.Node
+		if i+1 < len(stack) {
+			child = stack[i+1]
+		}
+		switch x := n.(type) {
+		case *ast.IfStmt:
+			switch {
+			case child == ast.Node(x.Body):
+				gs = append(gs, exprText(x.Cond))
+			case x.Else != nil && child == ast.Node(x.Else):
+				gs = append(gs, "!("+exprText(x.Cond)+")")
+			}
+		case *ast.CaseClause:
+			inBody := false
+			for _, s := range x.Body {
+				if child == ast.Node(s) {
+					inBody = true
+				}
+			}
+			if !inBody {
+				continue
+			}
+			tag := ""
+			if i >= 2 {
+				switch sw := stack[i-2].(type) {
+				case *ast.SwitchStmt:
+					if sw.Tag != nil {
+						tag = exprText(sw.Tag) + " == "
+					}
+				case *ast.TypeSwitchStmt:
+					tag = "type "
+				}
+			}
+			if x.List == nil {
+				gs = append(gs, tag+"default")
+			} else {
+				var cs []string
+				for _, e := range x.List {
+					cs = append(cs, exprText(e))
+				}
+				gs = append(gs, tag+strings.Join(cs, " | "))
+			}
+		}
+	}
+	return gs
+}
+
+// callSites returns every call for which match reports true, in source order
+// (files sorted by name, then position).
+func (c *ctx) callSites(match func(call *ast.CallExpr) bool) []callSite {
+	var out []callSite
+	for _, f := range c.files {
+		for _, d := range f.Decls {
+			fd, ok := d.(*ast.FuncDecl)
+			if !ok || fd.Body == nil {
+				continue
+			}
+			name := fd.Name.Name
+			if fd.Recv != nil && len(fd.Recv.List) == 1 {
+				name = recvName(fd.Recv.List[0].Type) + "." + name
+			}
+			var stack []ast.Node
+			ast.Inspect(fd.Body, func(n ast.Node) bool {
+				if n == nil {
+					stack = stack[:len(stack)-1]
+					return true
+				}
+				if call, ok := n.(*ast.CallExpr); ok && match(call) {
+					cs := callSite{fn: name, guards: guardsOf(append(stack, n)), pos: c.pos(call)}
+					if sel, ok := call.Fun.(*ast.SelectorExpr); ok {
+						cs.recv = exprText(sel.X)
+					}
+					for _, a := range call.Args {
+						cs.args = append(cs.args, exprText(a))
+					}
+					out = append(out, cs)
+				}
+				stack = append(stack, n)
+				return true
+			})
+		}
+	}
+	return out
+}
+
+// isFuncCall: call of the package-level function `name`.
+func (c *ctx) isFuncCall(call *ast.CallExpr, name string) bool {
+	id, ok := call.Fun.(*ast.Ident)
+	if !ok {
+		return false
+	}
+	fn, ok := c.info.Uses[id].(*types.Func)
+	return ok && fn.Name() == name && fn.Pkg() == c.pkg && fn.Type().(*types.Signature).Recv() == nil
+}
+
+// isMethodCall: call of method `meth` declared on (pointer to) the package type `recvType`.
+func (c *ctx) isMethodCall(call *ast.CallExpr, recvType, meth string) bool {
+	sel, ok := call.Fun.(*ast.SelectorExpr)
+	if !ok || sel.Sel.Name != meth {
+		return false
+	}
+	s, ok := c.info.Selections[sel]
+	if !ok || s.Kind() != types.MethodVal {
+		return false
+	}
+	fn, ok := s.Obj().(*types.Func)
+	if !ok {
+		return false
+	}
+	r := fn.Type().(*types.Signature).Recv()
+	if r == nil {
+		return false
+	}
+	t := r.Type()
+	if p, ok := t.(*types.Pointer); ok {
+		t = p.Elem()
+	}
+	nt, ok := t.(*types.Named)
+	return ok && nt.Obj().Name() == recvType && nt.Obj().Pkg() == c.pkg
+}
+
+// guardedSitesFact: `List (String × List String)` = (enclosing function, guards).
+func guardedSitesFact(name, doc string, sites []callSite) fact {
+	var xs []string
+	for _, s := range sites {
+		xs = append(xs, ltuple(lstr(s.fn), lstrs(s.guards)))
+	}
+	return fact{name, "List (String × List String)", doc, llist(xs, true)}
+}
+
+// ---- the facts ---------------------------------------------------------------------------
+
+func (c *ctx) timerFacts() []fact {
+	var fs []fact
+
+	// 5. rtxTimerSites: which timer gets which retry budget
+	var ps [][2]string
+	for _, s := range c.callSites(func(call *ast.CallExpr) bool { return c.isFuncCall(call, "newRTXTimer") }) {
+		if len(s.args) != 4 {
+			die("newRTXTimer call at %s has %d arguments (signature changed?)", s.pos, len(s.args))
+		}
+		ps = append(ps, [2]string{s.args[0], s.args[2]})
+	}
+	fs = append(fs, pairsFact("rtxTimerSites",
+		"every `newRTXTimer(id, observer, maxRetrans, rtoMax)` call in non-test code: (id argument, maxRetrans argument)", ps))
+
+	// setNewRTT call sites with their guards (Karn's rule)
+	fs = append(fs, guardedSitesFact("setNewRTTSites",
+		"every `(*rtoManager).setNewRTT` call in non-test code: (enclosing function, conditions of the enclosing if/case arms, outermost first)",
+		c.callSites(func(call *ast.CallExpr) bool { return c.isMethodCall(call, "rtoManager", "setNewRTT") })))
+
+	// every start of a retransmission timer: which timer, with which rto argument
+	var st []string
+	for _, s := range c.callSites(func(call *ast.CallExpr) bool { return c.isMethodCall(call, "rtxTimer", "start") }) {
+		st = append(st, ltuple(lstr(s.fn), lstr(s.recv), lstr(strings.Join(s.args, ", "))))
+	}
+	fs = append(fs, fact{"rtxTimerStartSites", "List (String × String × String)",
+		"every `(*rtxTimer).start(rto)` call in non-test code: (enclosing function, receiver, rto argument)", llist(st, true)})
+
+	// the configured maximum handed to the manager and to every timer
+	var mx [][2]string
+	for _, s := range c.callSites(func(call *ast.CallExpr) bool {
+		return c.isFuncCall(call, "newRTOManager") || c.isFuncCall(call, "newRTXTimer")
+	}) {
+		callee := "newRTXTimer"
+		if len(s.args) == 1 {
+			callee = "newRTOManager"
+		}
+		mx = append(mx, [2]string{callee, s.args[len(s.args)-1]})
+	}
+	fs = append(fs, pairsFact("rtoMaxArgSites",
+		"every `newRTOManager(rtoMax)` / `newRTXTimer(…, rtoMax)` call in non-test code: (callee, rtoMax argument)", mx))
+
+	// ack timer start / stop sites with their guards
+	fs = append(fs, guardedSitesFact("ackTimerStartSites",
+		"every `(*ackTimer).start()` call in non-test code: (enclosing function, guards)",
+		c.callSites(func(call *ast.CallExpr) bool { return c.isMethodCall(call, "ackTimer", "start") })))
+	fs = append(fs, guardedSitesFact("ackTimerStopSites",
+		"every `(*ackTimer).stop()` call in non-test code: (enclosing function, guards)",
+		c.callSites(func(call *ast.CallExpr) bool { return c.isMethodCall(call, "ackTimer", "stop") })))
+
+	// setRTO (test hook that can freeze the manager): must have no non-test caller
+	fs = append(fs, guardedSitesFact("setRTOSites",
+		"every `(*rtoManager).setRTO` call in non-test code (a test hook that can bypass the clamp)",
+		c.callSites(func(call *ast.CallExpr) bool { return c.isMethodCall(call, "rtoManager", "setRTO") })))
+	return fs
+}
+
 func (c *ctx) genFacts() string {
-	return "-- GENERATED\nnamespace Gen\nend Gen\n"
+	var b strings.Builder
+	b.WriteString("-- GENERATED by /verif/go/extract from /repo on every run. Do not edit; not committed.\n")
+	b.WriteString("-- Structural facts about the Go source as Lean data (text of expressions as written in the source).\n")
+	b.WriteString("namespace Gen\n\n")
+	var facts []fact
+	facts = append(facts, c.timerFacts()...)
+	for _, f := range facts {
+		b.WriteString(f.lean() + "\n")
+	}
+	b.WriteString("end Gen\n")
+	return b.String()
 }
